@@ -9,7 +9,7 @@
     (ok "html)                                  — C11
     (ok "html (level inPre open) ((name "indent)*))  — C12 (`full`): final counters of the formatter object and
                                                       every element of its tree in document order with its `_indent`
-    (raise multipleRoot|styleNone|noRoot)
+    (raise multipleRoot|noRoot)
 -/
 import AHP.Model.Format
 namespace Driver.C11
@@ -54,12 +54,11 @@ def toClass : String → Option Class
 
 def errName : Err → String
   | .multipleRoot => "multipleRoot"
-  | .styleNone => "styleNone"
   | .noRoot => "noRoot"
 
 mutual
 partial def elems : Node → List Sexp
-  | .text _ => []
+  | .text _ _ => []
   | .elem _ n _ _ ind kids => Sexp.list [strAtom n, strAtom ind] :: elemsL kids
 partial def elemsL : List Node → List Sexp
   | [] => []
